@@ -30,12 +30,18 @@ CLAIM = {
             "the mode table assigns exactly one mode to every admissible pair (16 patterns enumerated, model tied to the "
             "real create functions exhaustively); reported qext_w / deltat_k are the QEXT column and T_from - T_out; for a "
             "series loop and for any branched loop the sum of mean-c_p duties equals the reported pump heat plus explicit "
-            "heat-capacity discretisation terms (zero for constant c_p); results of elements that were not calculated are NaN.",
+            "heat-capacity discretisation terms (zero for constant c_p), and per element the reported pump heat equals the mean-c_p "
+            "heat of the same temperature step plus 1/2 m (c_p(T_out) - c_p(T_in)) (T_out + T_in); results of elements that were "
+            "not calculated are NaN (generated table of written rows). The mode theorems need flow along the declared direction "
+            "(controlled_mdot > 0), which create_heat_consumer does not enforce: for negative controlled_mdot the faithful model "
+            "refutes the set-point clause (theorem consumer_modes_refuted_for_negative_mdot; replayed on the code, known finding).",
     "note": "Theorems over R use the standard-library real axioms (ClassicalDedekindReals.sig_forall_dec, sig_not_dec, "
             "FunctionalExtensionality.functional_extensionality_dep, Classical_Prop.classic via lra/field support). "
             "Loop closure is proved for series loops (telescoping) and for arbitrary branched loops (any graph with mass "
             "balance and mean-c_p mixing at every node) with explicit branch and node discretisation terms, both zero for "
-            "constant c_p; the monitor evaluates the same identity. The assembly of the hydraulic "
+            "constant c_p; the monitor evaluates the same identity. Known findings (genuine, kept visible): QE_TR consumers in "
+            "sequential mode report a heat that the fluid does not lose; negative controlled_mdot misses the set-points. "
+            "Out of scope: transient thermal branch. The assembly of the hydraulic "
             "identity row is C01/C03's subject; here the generated hook values (1, 0, 0, 0) are the statement.",
     "technique": "Coq proof over generated kernels and hooks (T-tie) + exhaustive correspondence of the mode table (H-tie) "
                  "+ monitors on real pipeflow results",
@@ -279,6 +285,35 @@ def hook_probe(ctx, spec, mode, numba):
                           {"spec": spec, "mode": mode, "use_numba": numba, "consumer": int(lab), "probe": "hook"})
 
 
+def negative_mdot_probe(ctx):
+    """replay of the refuted clause (coq/C11/Props.v consumer_modes_refuted_for_negative_mdot) on the implementation:
+    a heat consumer whose controlled_mdot_kg_per_s is negative (accepted by create_heat_consumer)"""
+    import random
+    for hmode, col in (("MF_DT", "deltat_k"), ("MF_TR", "treturn_k")):
+        spec = c10_gen.loop(random.Random(2), n_cons=3, pump="pressure", modes=[hmode, "MF_QE", "MF_QE"], p_only=False)
+        first = True
+        for fn, kw in spec["ops"]:
+            if fn == "create_heat_consumer":
+                kw["controlled_mdot_kg_per_s"] = -0.2 if first else 1.0
+                if not first:
+                    kw["qext_w"] = abs(kw["qext_w"])
+                first = False
+        net = hgen.build(spec)
+        r = c10.run_pipeflow(net, "sequential", False)
+        ctx.count("negative_mdot_probe_" + r)
+        if r != "ok":
+            continue
+        lab = net.heat_consumer.index[0]
+        row, res = net.heat_consumer.loc[lab], net.res_heat_consumer.loc[lab]
+        obs = float(res.deltat_k) if col == "deltat_k" else float(res.t_outlet_k)
+        ctx.case({"kind": "negative-mdot-probe", "mode": hmode, "observed": obs, "set_point": float(row[col])}, True)
+        if not abs(obs - float(row[col])) <= 1e-6 * max(1.0, abs(float(row[col]))):
+            ctx.violation({"clause": "consumer_modes", "controlled_mdot": "negative", "quantity": col},
+                          "heat consumer %s with controlled_mdot_kg_per_s = %s (%s given): %s is %.6f, set-point %.6f"
+                          % (lab, row.controlled_mdot_kg_per_s, hmode, col, obs, float(row[col])),
+                          {"spec": spec, "mode": "sequential", "use_numba": False, "consumer": int(lab)})
+
+
 def explore(ctx, n_nets, n_numba):
     rng = ctx.rng
     conv = 0
@@ -329,6 +364,10 @@ def run(ctx):
     finally:
         th.join()
     proved = res.get("proved", False)
+    try:
+        negative_mdot_probe(ctx)
+    except Exception as e:  # noqa: BLE001
+        ctx.broken("harness", "negative-mdot probe could not run", repr(e))
     try:
         mode_correspondence(ctx)
     except Exception as e:  # noqa: BLE001
